@@ -131,7 +131,9 @@ class _ListingBase(Contract):
                     return root
                 h5 = LibNS("h5py", {"is_hdf5": LibFunc("h5py.is_hdf5", lambda I, p: is_h5), "File": LibFunc("h5py.File", File)})
                 return dict(filepath=fp, __free__={"h5py": h5, "natsorted": LibFunc("natsorted", _natsorted)},
-                            __ghost__={"root": root, "opens": opens, "fp": fp, "is_h5": is_h5, "shape": shape, "__free_deep__": True})
+                            __ghost__=dict({"root": root, "opens": opens, "fp": fp, "is_h5": is_h5, "shape": shape, "__free_deep__": True},
+                                           # flat copies for concretisation at replay
+                                           **{"fmt:" + nd.name: nd.fmt for nd in root.groups()}))
             return f
         for shape in self.shapes:
             yield f"tree={shape}", mk(shape)
